@@ -211,7 +211,7 @@ func sameSignedContent(orig, mut []byte, chainID string) (bool, string) {
 
 func checkC16(r *ev.Run) {
 	nScripts := r.N(8, 100)
-	r.Rule("case = a freshly signed, valid transaction T (send, DAO transfer, DAO burn, parameter change, application edit-stake, node unjail attempt) delivered once, followed by a second delivery that is either the identical bytes or one of 6 semantics-preserving re-encodings of the length-prefixed protobuf (non-minimal length prefix, appended unknown field, duplicated scalar field, reversed field order, non-minimal inner varint, non-minimal nested length), placed in the same block (right after T, or after other txs) or in a later block (1-3 blocks later, after the driver indexed T as Tendermint does). Each re-encoding is first checked, with the application's own decoder, to carry the same sign bytes, signature and public key and to verify. Oracle (per-tx pre/post snapshots): the second delivery must be rejected and leave every store digest unchanged. Post-upgrade (protobuf) codec with all features active; the legacy amino era (heights 1-2 of the bootstrap) is not exercised. Non-trivial = the first delivery was accepted; distinct = (message kind, class, placement).")
+	r.Rule("case = a freshly signed, valid transaction T (send, DAO transfer, DAO burn, parameter change, application edit-stake, node unjail attempt) delivered once, followed by a second delivery that is either the identical bytes or one of 6 semantics-preserving re-encodings of the length-prefixed protobuf (non-minimal length prefix, appended unknown field, duplicated scalar field, reversed field order, non-minimal inner varint, non-minimal nested length), placed in the same block (right after T, or after other txs) or in a later block (1-3 blocks later, after the driver indexed T as Tendermint does). Each re-encoding is first checked, with the application's own decoder, to carry the same sign bytes, signature and public key and to verify. Oracle (per-tx pre/post snapshots): the second delivery must be rejected and leave every store digest unchanged. Post-upgrade (protobuf) codec with all features active; the legacy amino era (heights 1-2 of the bootstrap) is not exercised. Additionally two kinds whose FIRST delivery passes the ante handler (the fee is taken) and then fails in its message handler (send beyond the balance, unjail of a node that is not jailed): the identical bytes delivered again, in the same block or later, must be rejected without taking a second fee. Non-trivial = the first delivery took effect (accepted, or fee taken); distinct = (message kind, class, placement).")
 	r.Assume("the driver indexes a block's transactions after Commit and before the next block, like Tendermint's indexer service")
 	ev.ForEach(nScripts, workers(), func(si int) {
 		if r.Only != "" && r.Only != "*" && r.Only != fmt.Sprint(si) {
@@ -244,6 +244,10 @@ func checkC16(r *ev.Run) {
 			case "app_edit":
 				appStake += 1_000_000
 				return chain.MsgAppStake(chain.Key(chain.KeyApp0), []string{"0001"}, appStake), chain.KeyApp0
+			case "send_overdraw": // passes the ante handler (fee affordable), fails in the message handler: only the fee moves
+				return chain.MsgSend(chain.Addr(chain.KeyAcct0+5), chain.Addr(chain.KeyAcct0+6), 900_000_000_000_000+int64(rr.Intn(1000))), chain.KeyAcct0 + 5
+			case "unjail_not_jailed":
+				return chain.MsgNodeUnjail(chain.Addr(chain.KeyNode0+1), chain.Addr(chain.KeyNode0+1)), chain.KeyNode0 + 1
 			default:
 				return chain.MsgSend(chain.Addr(chain.KeyAcct0+3), chain.Addr(chain.KeyAcct0+4), int64(1+rr.Intn(1000))), chain.KeyAcct0 + 3
 			}
@@ -257,8 +261,17 @@ func checkC16(r *ev.Run) {
 			return n
 		}()...)
 		places := []string{"same-block-adjacent", "same-block-later", "next-block", "3-blocks-later"}
-		for _, kind := range kinds {
+		// transactions whose FIRST delivery fails in the message handler after the fee was taken: identical bytes only
+		failing := map[string]bool{"send_overdraw": true, "unjail_not_jailed": true}
+		kinds = append(kinds, "send_overdraw", "unjail_not_jailed", "send_overdraw", "unjail_not_jailed")
+		for ki, kind := range kinds {
 			for ci, class := range classes {
+				if failing[kind] && class != "identical-bytes" {
+					continue
+				}
+				if failing[kind] {
+					ci = ki // spread the four placements over the four failing cases
+				}
 				place := places[(ci+si+len(kind))%len(places)]
 				msg, signer := mk(kind)
 				p.B.Begin(60)
@@ -324,13 +337,30 @@ func checkC16(r *ev.Run) {
 				continue
 			}
 			id := pr.kind + "/" + pr.class + "/" + pr.place
-			r.Case(id, pr.first.Res.Code == 0)
-			if pr.first.Res.Code != 0 {
-				r.Count("first_delivery_rejected(not judged)", 1)
+			// "took effect" = accepted, or rejected by its message handler after the fee had been taken
+			firstChanged := changedStores(pr.first.Pre, pr.first.Post)
+			tookEffect := pr.first.Res.Code == 0 || len(firstChanged) != 0
+			r.Case(id, tookEffect)
+			if !tookEffect {
+				r.Count("first_delivery_without_any_effect(not judged)", 1)
 				continue
 			}
 			r.Count("second_deliveries_judged", 1)
 			ch := changedStores(pr.second.Pre, pr.second.Post)
+			if pr.first.Res.Code != 0 {
+				r.Count("second_deliveries_judged_after_a_failed_first_delivery_that_paid_its_fee", 1)
+				if pr.second.Res.Code == 0 || len(ch) != 0 {
+					placeClass := "later-block"
+					if pr.place[:4] == "same" {
+						placeClass = "same-block"
+					}
+					d := balDelta(pr.second.Pre, pr.second.Post)
+					r.Violation("took-effect-twice/"+pr.class+"/"+placeClass+"/after-failed-first-delivery", fmt.Sprintf("script %d: %s signed once: the first delivery (h=%d tx=%d) failed in its handler with code %d after the fee was taken; the identical bytes delivered again (%s, h=%d tx=%d) returned code %d and changed stores %v, balance changes %s",
+						si, pr.kind, pr.first.H, pr.first.I, pr.first.Res.Code, pr.place, pr.second.H, pr.second.I, pr.second.Res.Code, ch, fmtDelta(d, pr.second.Post)),
+						map[string]interface{}{"case": fmt.Sprint(si), "kind": pr.kind, "class": pr.class, "placement": pr.place, "original_tx_hex": fmt.Sprintf("%x", pr.first.Bytes), "second_result": pr.second.Res})
+				}
+				continue
+			}
 			if pr.second.Res.Code == 0 || len(ch) != 0 {
 				placeClass := "later-block"
 				if pr.place[:4] == "same" {
